@@ -228,6 +228,15 @@ def main(tier):
         'Warp is judged for orientation-preserving lattice maps only (Warp cannot flip triangles; its comment leaves validity to the caller)',
         'twist != 0 and non-integer parameters are not covered; general (non-lattice) affine matrices only through integer matrices with |det| <= 4',
         'vertex/triangle counts are consequences of the documented construction (copies of the cross-section, slices of the revolve, 8 m^2 faces)']
+    # Extrude with twist AND top scale against the documented point map ("scale is applied after twist"), on sample points
+    # (GenPos.tla extrude classes; float oracle with a 0.04 undecided margin around the analytic surface)
+    import progfam as _pf
+    eb, _r = _pf.generate('GenPos_extrude.cfg', module='GenPos')
+    n_e, nt_e = _pf.replay(chk, eb, 0, ['--seed=%d' % vf.seed(), '--points=%d' % (80 if tier == 'quick' else 400)], {'extrude'},
+                           tag='extrude', mode='genpos', jobs=8, chunk=12,
+                           sig_of=lambda f, beh: '%s|%s' % (f['kind'], json.dumps(beh)))
+    chk.coverage['extrude_twist_scale_classes'] = n_e
+    chk.coverage['extrude_points_judged'] = sum(x.get('judged', 0) for x in chk.last_results.values())
     chk.finish()
 
 
